@@ -953,6 +953,8 @@ Proof.
   - destruct (skip_wait (bgl ss)) as [waited ok]. destruct ok; injection H as <- <- <-; exact E.
   - injection H as <- <- <-. exact E.
   - injection H as <- <- <-. exact E.
+  - injection H as <- <- <-. exact E.
+  - destruct (skip_wait (bgl ss)) as [waited ok]. destruct ok; injection H as <- <- <-; exact E.
   - destruct (cached_look cfg s c ss prog) as [ans c1]. destruct (Bool.eqb ans (negb neg)).
     + eapply IH; eauto.
     + injection H as <- <- <-. exact E.
@@ -981,7 +983,7 @@ Lemma exec_action_sim cfg s a : key_by_path cfg = true ->
 Proof.
   intro Hk. induction a as [p d|p ro|p|p|k v|sub keep|id bad|h neg| | | | | | | |neg prog a IH];
     intros cb ca ss cb' ssb ob ca' ssa oa R G E Hb Ha.
-  14: {
+  16: {
     cbn [exec_action] in Hb, Ha.
     destruct (cached_look cfg s cb ss prog) as [vb cb1] eqn:Eb.
     destruct (cached_look cfg s ca ss prog) as [va ca1] eqn:Ea.
@@ -1025,7 +1027,8 @@ Proof.
       destruct (exec_action_sim cfg s a Hk _ _ _ _ _ _ _ _ _ R G E Eb Ea) as (-> & -> & R1 & G1 & F1).
       injection Hb as <- <- <-; injection Ha as <- <- <-.
       split; [reflexivity|]. split; [exact R1|]. split; [exact G1|]. split; [|exact F1].
-      cbn [set_ph senv]. eapply exec_action_env_ok; eauto.
+      assert (E1 : env_ok s (senv ssa1)) by (eapply exec_action_env_ok; eauto).
+      destruct oa; [| destruct (continue_on_error cfg) | | |]; exact E1.
     + injection Hb as <- <- <-; injection Ha as <- <- <-.
       split; [reflexivity|]. split; [exact R|]. split; [exact G|]. split; [exact E | apply frame_others_refl].
   - destruct st; try (injection Hb as <- <- <-; injection Ha as <- <- <-;
@@ -1155,7 +1158,7 @@ Qed.
 Definition b_bin : name := [x62; x69; x6e].
 Definition b_tool : name := [x6d; x79; x74; x6f; x6f; x6c].
 Definition cfg_prog_key : config :=
-  {| retain := false; key_by_path := false; names_see_env := true; has_cancel := false; is_root := true;
+  {| retain := false; key_by_path := false; names_see_env := true; continue_on_error := false; has_cancel := false; is_root := true;
      hostenv := [(PATH, [x2f; x75; x73; x72; x2f; x62; x69; x6e])]; hosttab := []; helper := [x68] |}.
 (* A: chmod 755 bin/mytool; env PATH=$WORK/bin; [exec:mytool] stop; then a failing line.
    B: [exec:mytool] then a failing line (mytool is not on the host PATH). *)
@@ -1180,7 +1183,7 @@ Proof. vm_compute. repeat split. Qed.
 
 (* the same two scripts with the key that includes PATH: both orders agree with the solitary runs *)
 Example path_key_order_independent :
-  let cfg := {| retain := false; key_by_path := true; names_see_env := true; has_cancel := false; is_root := true;
+  let cfg := {| retain := false; key_by_path := true; names_see_env := true; continue_on_error := false; has_cancel := false; is_root := true;
                 hostenv := hostenv cfg_prog_key; hosttab := []; helper := [x68] |} in
   let progs := [script_A; script_B] in
   let a_first := repeat 0 12 ++ repeat 1 12 in
@@ -1213,7 +1216,7 @@ Proof.
   - destruct (nth_error (body p) pc) as [a|] eqn:Ea.
     + destruct (exec_action cfg s c ss a) as [[c1 ss1] o]. injection H as <- <- <-. cbn [ph set_ph].
       assert (pc < length (body p)) by (apply nth_error_Some; congruence).
-      destruct o; lia.
+      destruct o; [| destruct (continue_on_error cfg) | | |]; cbn [ph set_ph set_failed]; lia.
     + injection H as <- <- <-. cbn [ph set_ph]. lia.
   - destruct st; try (injection H as <- <- <-; cbn [ph set_ph]; lia).
     destruct (retain cfg); injection H as <- <- <-; cbn [ph set_ph]; lia.
@@ -1313,7 +1316,7 @@ Lemma unexpanded_names_refuted :
     snd (fst (sstep cfg p 0 [] sstate0)) = ss /\ In (EvSetup e t o) (obs ss) /\
     o <> [] /\ exists q, tree_get t q <> expected_node (archive p) q.
 Proof.
-  exists {| retain := false; key_by_path := true; names_see_env := false; has_cancel := false; is_root := true;
+  exists {| retain := false; key_by_path := true; names_see_env := false; continue_on_error := false; has_cancel := false; is_root := true;
             hostenv := []; hosttab := []; helper := [] |},
          {| archive := [([[x66]], [x31])]; work_named := [[[x66]]]; setup_adds := []; setup_defers := [];
             setup_err := false; body := [] |}.
@@ -1406,7 +1409,7 @@ Qed.
 (* ------------------------------------------------------------------ examples: every exit path occurs *)
 
 Definition ex_cfg : config :=
-  {| retain := false; key_by_path := true; names_see_env := true; has_cancel := true; is_root := false;
+  {| retain := false; key_by_path := true; names_see_env := true; continue_on_error := false; has_cancel := true; is_root := false;
      hostenv := [(PATH, [x2f; x62]); ([x47; x4f; x52; x41; x43; x45], [x78]); ([x43; x41; x4e; x41; x52; x59], [x31])];
      hosttab := [(([x2f; x62], [x68]), true)]; helper := [x68] |}.
 Definition ex_script (b : list action) : script :=
